@@ -229,6 +229,19 @@ func c03Cases(seed int64, tier string) []core.Case {
 	for i, t := range c02Tables(seed*17+5, nt) {
 		cs = append(cs, core.MkCase(fmt.Sprintf("table-%d", i), "table-"+t.Kind, r.Int63(), c03Table{Spec: t}))
 	}
+	// tables with more entries than the format has room for (5..9 MBR partitions; GPT indices beyond 128): if
+	// Write accepts them it must still stay inside the table's own sectors
+	for i := 0; i < 6; i++ {
+		lss := []int{512, 512, 4096}[i%3]
+		t := genMBR(r, lss, 64<<20)
+		for len(t.MBR) < 5+i%5 {
+			t.MBR = append(t.MBR, MBRPartSpec{Type: 0x83, Start: uint32(2048 + 1000*len(t.MBR)), Size: 900})
+		}
+		cs = append(cs, core.MkCase(fmt.Sprintf("table-mbr-over-%d", i), "table-mbr", r.Int63(), c03Table{Spec: t}))
+		g := genGPT(r, lss, 64<<20)
+		g.GPT = append(g.GPT, GPTPartSpec{Index: 129 + i*40, Start: 3000, End: 3999, Type: "0FC63DAF-8483-4772-8E79-3D69D8477DE4", Name: "beyond"})
+		cs = append(cs, core.MkCase(fmt.Sprintf("table-gpt-over-%d", i), "table-gpt", r.Int63(), c03Table{Spec: g}))
+	}
 	return cs
 }
 
@@ -347,7 +360,7 @@ func init() {
 	core.Register(&core.Check{
 		ID:    "C03",
 		Level: "exploration",
-		Rule: "every WriteAt reaching the instrumented store is range-checked online (a write outside the allowed ranges counts only if it changes a byte: identical rewrites are recorded as benign) and the guard bytes (PRF fill outside the range) are re-verified afterwards page by page. Workloads: FAT12/16/32 and ext4 volumes at start 0/512/4096/1 MiB/4 GiB+ with sizes that are not multiples of the cluster/block size under random histories, fill-to-no-space with many files, release and refill; iso9660 and squashfs Create+Finalize with trees smaller and larger than the range at start 0/1 MiB/4 GiB+; Disk.CreateFilesystem of every type in partition 1 of MBR/GPT disks whose partition 2 follows directly, for every partition size from 1 to 300 sectors and a geometric ladder up to 70000 (refused or accepted: nothing outside partition 1 may change); GPT/MBR table writes (allowed: MBR bytes 446-511, GPT header and array sectors of both copies) over PRF-filled devices incl. rewrite over another table; non-trivial = a workload that issued at least one write; distinct = distinct (component, geometry, workload)",
+		Rule: "every WriteAt reaching the instrumented store is range-checked online (a write outside the allowed ranges counts only if it changes a byte: identical rewrites are recorded as benign) and the guard bytes (PRF fill outside the range) are re-verified afterwards page by page. Workloads: FAT12/16/32 and ext4 volumes at start 0/512/4096/1 MiB/4 GiB+ with sizes that are not multiples of the cluster/block size under random histories, fill-to-no-space with many files, release and refill; iso9660 and squashfs Create+Finalize with trees smaller and larger than the range at start 0/1 MiB/4 GiB+; Disk.CreateFilesystem of every type in partition 1 of MBR/GPT disks whose partition 2 follows directly, for every partition size from 1 to 300 sectors and a geometric ladder up to 70000 (refused or accepted: nothing outside partition 1 may change); GPT/MBR table writes (allowed: MBR bytes 446-511, GPT header and array sectors of both copies) over PRF-filled devices incl. rewrite over another table and tables with more entries than the format holds (5-9 MBR partitions, GPT indices beyond 128); non-trivial = a workload that issued at least one write; distinct = distinct (component, geometry, workload)",
 		Assumptions: []string{"the store's unwritten bytes outside the range are a non-zero PRF of the offset, so any write of different bytes there is visible", "partition-content streaming is range-checked in C13"},
 		MinSigs:   map[string]int{"quick": 60, "thorough": 500},
 		NeedMarks: []string{"fat12", "fat16", "fat32", "ENOSPC reached", "iso9660", "squashfs", "table gpt", "table mbr", "volume beyond 4 GiB", "Disk.CreateFilesystem in a partition followed directly by another"},
